@@ -84,6 +84,9 @@ class SObj:
         return '<obj %s>' % (s.cls,)
 
 
+USED_CONTRACTS = set()          # callee contracts applied while a group ran (read by cbv.check: modularity audit)
+
+
 class SymSet:
     """a python set literal holding symbolic integers"""
     def __init__(s, el):
@@ -1024,6 +1027,7 @@ class Interp:
         if not force_body:
             c = s.contracts.get(key) or s.contracts.get(qual)
             if c is not None:
+                USED_CONTRACTS.add(key)
                 if kw:
                     args, kw = s.bind_positional(modkey, qual, args, kw)
                 return c(s, *args, **kw)
